@@ -313,6 +313,10 @@ func (m *Model) updateMode(mode *traits.ElectricMode, opts ...resource.WriteOpti
 		}
 	}
 
+	// The id is always among the written fields: with resource.WithCreateIfAbsent and an update mask that
+	// leaves it out, the mode would be created with an empty Id under the key mode.Id, and ChangeActiveMode followed
+	// by DeleteMode of that key would then delete the active mode. For a mode that exists this writes the id it has.
+	opts = append(opts[:len(opts):len(opts)], resource.WithMoreUpdatePaths("id"), resource.WithMoreWritablePaths("id"))
 	msg, err := m.modes.Update(mode.Id, mode, opts...)
 	if err != nil {
 		return nil, err
